@@ -434,7 +434,7 @@ pub struct PairObs {
     pub expr: u32,
     /// `circuit.expr_to_widx[target]`
     pub widx: Option<u32>,
-    /// basis coefficients held by that witness slot after `set_public_inputs` +
+    /// basis coefficients (serialised form) held by that witness slot after `set_public_inputs` +
     /// `set_private_inputs` (`None`: slot still unset)
     pub value: Option<Vec<u64>>,
 }
@@ -442,8 +442,12 @@ pub struct PairObs {
 /// What the real packing + the real input loading did with one (tagged) object.
 #[derive(Clone, Debug)]
 pub struct Placement {
-    /// `pack_values` of the object (the repository's packing code)
+    /// `pack_values` of the object (the repository's packing code), coefficients in SERIALISED form
+    /// (unlike `Fixture::pack`, whose `Packed` holds canonical values)
     pub packed: Packed,
+    /// serialised form of the field element 1 (`R mod p` for Montgomery fields): adding it to a JSON
+    /// leaf is the canonical "+1"
+    pub ser_one: u64,
     pub public_flat_len: usize,
     pub private_flat_len: usize,
     /// `circuit.public_rows` / `circuit.private_input_rows` (witness slot of every position)
@@ -456,8 +460,13 @@ pub struct Placement {
     pub unreachable: Vec<String>,
 }
 
-pub fn ef_coeffs<F: PrimeField64, EF: BasedVectorSpace<F>>(x: &EF) -> Vec<u64> {
-    x.as_basis_coefficients_slice().iter().map(|c| c.as_canonical_u64()).collect()
+/// Basis coefficients in their SERIALISED form, i.e. exactly the numbers a proof's JSON tree holds
+/// (BabyBear / KoalaBear serialise the Montgomery representation, Goldilocks the canonical one).
+pub fn ef_coeffs<F: PrimeField64 + serde::Serialize, EF: BasedVectorSpace<F>>(x: &EF) -> Vec<u64> {
+    x.as_basis_coefficients_slice()
+        .iter()
+        .map(|c| serde_json::to_value(c).ok().and_then(|v| v.as_u64()).expect("field element serialises as an unsigned integer"))
+        .collect()
 }
 
 /// Load `pubs` / `privs` into a fresh runner of `circuit` and read the slot of every walked target.
@@ -465,7 +474,7 @@ pub fn ef_coeffs<F: PrimeField64, EF: BasedVectorSpace<F>>(x: &EF) -> Vec<u64> {
 /// of the inputs is of interest.
 pub fn observe<F, EF>(circuit: &Circuit<EF>, pubs: &[EF], privs: &[EF], walk: Walk) -> Placement
 where
-    F: PrimeField64,
+    F: PrimeField64 + serde::Serialize,
     EF: ExtensionField<F> + BasedVectorSpace<F>,
 {
     let mut runner = circuit.runner();
@@ -489,6 +498,7 @@ where
             public: pubs.iter().map(|v| ef_coeffs::<F, EF>(v)).collect(),
             private: privs.iter().map(|v| ef_coeffs::<F, EF>(v)).collect(),
         },
+        ser_one: serde_json::to_value(F::ONE).ok().and_then(|v| v.as_u64()).expect("field element serialises as an unsigned integer"),
         public_flat_len: circuit.public_flat_len,
         private_flat_len: circuit.private_flat_len,
         public_rows: circuit.public_rows.iter().map(|w| w.0).collect(),
